@@ -43,6 +43,11 @@ static void add_pointer(Case& c, const std::string& t) {
 }
 static void add_uri(Case& c, const std::string& t) {
     c.entries.push_back([t] { std::error_code ec; jsoncons::uri u = jsoncons::uri::parse(t, ec); if (!ec) { std::string s = u.string(); (void)u.scheme(); (void)u.host(); (void)u.path(); (void)u.fragment(); (void)u.is_absolute(); jsoncons::uri b("http://a/b/c/d;p?q"); jsoncons::uri r = u.resolve(b); (void)r.string(); jsoncons::uri r2 = b.resolve(u); (void)r2.string(); } });
+    // reference resolution in both directions against partners of every shape (absolute, relative path, dot segments that pop
+    // more than there is, empty, query/fragment only, network-path)
+    c.entries.push_back([t] { std::error_code ec; jsoncons::uri u = jsoncons::uri::parse(t, ec); if (ec) return;
+        static const char* partners[] = {"../c", "../../g", "./x/../y", "a/b", "x/y/z", "", "?q", "#f", "//h/p/..", "/..", "..", ".", "a/..", "a/../..", "http://h", "http://h/..", "s:a/b", "s:"};
+        for (const char* p : partners) { std::error_code e2; jsoncons::uri v = jsoncons::uri::parse(p, e2); if (e2) continue; jsoncons::uri r = u.resolve(v); (void)r.string(); jsoncons::uri r2 = v.resolve(u); (void)r2.string(); (void)r2.base(); } });
     c.entries.push_back([t] { try { jsoncons::uri u(t); (void)u.base(); (void)u.encoded_path(); } catch (const std::system_error&) {} });
 }
 
